@@ -982,16 +982,25 @@ func shrinkReasm(ctx *Ctx, m *common.Model, c RCase, kind string) RCase {
 	if c.Real {
 		return c
 	}
-	for changed := true; changed; {
-		changed = false
-		for i := 0; i < len(c.Ops); i++ {
-			x := c
-			x.Ops = append(append([]ROp{}, c.Ops[:i]...), c.Ops[i+1:]...)
-			if fails(x) {
-				c = x
-				changed = true
-				i--
+	// delta debugging with a time budget: chunks of half the history, a quarter, ... down to single operations (a
+	// history of thousands of operations is not re-run once per operation)
+	deadline := time.Now().Add(20 * time.Second)
+	for chunk := (len(c.Ops) + 1) / 2; chunk >= 1; chunk /= 2 {
+		for changed := true; changed && time.Now().Before(deadline); {
+			changed = false
+			for i := 0; i+chunk <= len(c.Ops) && time.Now().Before(deadline); {
+				x := c
+				x.Ops = append(append([]ROp{}, c.Ops[:i]...), c.Ops[i+chunk:]...)
+				if fails(x) {
+					c = x
+					changed = true
+				} else {
+					i += chunk
+				}
 			}
+		}
+		if chunk == 1 {
+			break
 		}
 	}
 	return c
